@@ -143,8 +143,18 @@ class _VarBytes:
         return v
 
 
+def _r_xkey(k):
+    return f"{hx(k.version)}/{k.depth}/{hx(k.parent_fingerprint)}/{k.index}/{hx(k.chain_code)}/{hx(k.key)}"
+
+
+def _xkey_parse(d):
+    from btclib.bip32 import BIP32KeyData
+    return BIP32KeyData.parse(d, check_validity=False)
+
+
 CLASSES = {
     # op: (parse(data)->obj, render, serialize(obj), size(obj), extra(obj))
+    "xkey.parse": (_xkey_parse, _r_xkey, lambda o: o.serialize(check_validity=False), lambda o: 78, None),
     "varbytes.parse": (lambda d: _VarBytes.parse(d), hx, var_bytes.serialize, var_bytes._size, None),
     "outpoint.parse": (lambda d: OutPoint.parse(d, check_validity=False), r_outpoint,
                        lambda o: o.serialize(check_validity=False), lambda o: o._serialized_size(), None),
@@ -177,7 +187,11 @@ def run_class(op: str, mode: str, b: bytes) -> str:
             rest = b""
     except Exception as e:  # noqa: BLE001 - the class and message are the observation
         return "err " + kind_of(e)
-    return f"ok {render(obj)} rest={hx(rest)} ser={hx(ser(obj))} size={size(obj)}{extra(obj) if extra else ''}"
+    try:  # an accepted object that then fails to serialize is an observation, not a harness crash
+        tail = f"ser={hx(ser(obj))} size={size(obj)}{extra(obj) if extra else ''}"
+    except Exception as e:  # noqa: BLE001
+        tail = f"ser=!{type(e).__name__}"
+    return f"ok {render(obj)} rest={hx(rest)} {tail}"
 
 
 def _varint_parse(b: bytes, max_size: int) -> str:
@@ -242,7 +256,10 @@ def _o_wire_canonical(w):
         c = common.err_class(e)
         return c in ("value", "runtime"), f"{op} refused with {type(e).__name__}: {str(e)[:80]}"
     used = len(b) - len(s.read())
-    out = ser(obj)
+    try:
+        out = ser(obj)
+    except Exception as e:  # noqa: BLE001
+        return False, f"{op} accepted {b[:used].hex()[:120]} but serialize raised {type(e).__name__}: {e}"
     if out != b[:used]:
         return False, f"{op} accepted {b[:used].hex()[:120]} but re-serializes to {out.hex()[:120]}"
     if size(obj) != used:
@@ -265,7 +282,10 @@ def _o_wire_roundtrip(w):
         x = parse(b)
     except Exception as e:  # noqa: BLE001
         return common.err_class(e) in ("value", "runtime"), "not an encoding"
-    out = ser(x)
+    try:
+        out = ser(x)
+    except Exception as e:  # noqa: BLE001
+        return False, f"{op}: serialize(parse(b)) raised {type(e).__name__}: {e}"
     s = BytesIO(out + rest)
     try:
         y = parse(s)
@@ -277,6 +297,9 @@ def _o_wire_roundtrip(w):
 
 ORACLES = {"varint.roundtrip": _o_varint_roundtrip, "varint.canonical": _o_varint_canonical,
            "wire.canonical": _o_wire_canonical, "wire.roundtrip": _o_wire_roundtrip}
+
+from . import c05_extra  # noqa: E402
+ORACLES.update(c05_extra.ORACLES)
 
 try:  # direct round-trip oracles for every class with a parse/serialize or to_dict/from_dict pair
     from . import c05_oracles
@@ -410,7 +433,15 @@ def p_block(rng):
     return p
 
 
-GENS = {"varbytes.parse": lambda r: p_varbytes(r, True), "outpoint.parse": p_outpoint, "witness.parse": p_witness,
+def p_xkey(rng):
+    ver = rng.choice([bytes.fromhex("0488b21e"), bytes.fromhex("0488ade4"), bytes.fromhex("043587cf"), common.rand_bytes(rng, 4)])
+    key = rng.choice([b"\x00", b"\x02", b"\x03"]) + common.rand_bytes(rng, 32)
+    return (Parts().add("bytes", ver).add("int", bytes([rng.choice([0, 1, 255, rng.getrandbits(8)])]))
+            .add("bytes", common.rand_bytes(rng, 4)).add("int", g_u32(rng).to_bytes(4, "big"))
+            .add("hash", common.rand_bytes(rng, 32)).add("bytes", key))
+
+
+GENS = {"xkey.parse": p_xkey, "varbytes.parse": lambda r: p_varbytes(r, True), "outpoint.parse": p_outpoint, "witness.parse": p_witness,
         "txin.parse": p_txin, "txout.parse": p_txout, "tx.parse": p_tx, "header.parse": p_header,
         "block.parse": p_block}
 
@@ -541,7 +572,7 @@ def run(ctx):
     ctx.stream("varint.parse", lines)
 
     # ---- wire classes: valid objects, mutations, vendored seeds
-    per_class = {"varbytes.parse": 300, "outpoint.parse": 200, "witness.parse": 400, "txin.parse": 400,
+    per_class = {"xkey.parse": 150, "varbytes.parse": 300, "outpoint.parse": 200, "witness.parse": 400, "txin.parse": 400,
                  "txout.parse": 400, "tx.parse": 1200, "header.parse": 200, "block.parse": 120}
     sd = seeds()
     for op, gen in GENS.items():
